@@ -19,6 +19,8 @@ pub(crate) unsafe fn from_utf8_unchecked<'b>(
     bytes: &'b [u8],
     safety_justification: &'static str,
 ) -> &'b str {
+    #[cfg(toml_rs_toml_verif)]
+    crate::__verif::utf8_site(bytes, safety_justification);
     unsafe {
         if cfg!(debug_assertions) {
             // Catch problems more quickly when testing
